@@ -24,6 +24,9 @@ type c02Case struct {
 	// Effect (C01's pair part): judge what the second instruction does to registers, flags and memory,
 	// not how long either instruction takes
 	Effect bool `json:"effect,omitempty"`
+	// Pending: an interrupt is requested and enabled in IE but the master enable is clear while the instructions run
+	// (nothing may be dispatched, every instruction keeps its length; HALT does not halt and takes its 1 cycle)
+	Pending bool `json:"pending,omitempty"`
 }
 
 // operands that make every control transfer land in WRAM
@@ -72,6 +75,11 @@ func c02Check(l *explore.Local, e *cpuEnv, c c02Case) *explore.Fail {
 	for _, op2 := range seconds {
 		e.m.Map.Write(0xff0f, 0)
 		e.m.Map.Write(0xffff, 0)
+		if c.Pending {
+			e.m.I.Disable()
+			e.m.Map.Write(0xffff, 0x04)
+			e.m.Map.Write(0xff0f, 0x04)
+		}
 		e.poke(0xdf00, 0x00) // return address C900 on the stack
 		e.poke(0xdf01, 0xc9)
 		e.placeCode(0xc000, c02Code(c.Op1))
@@ -89,7 +97,7 @@ func c02Check(l *explore.Local, e *cpuEnv, c c02Case) *explore.Fail {
 			return f
 		}
 		l.Trans(1)
-		if o1.got.Halted || o1.got.Stopped || !plainAddr(o1.want.PC) || o1.got.PC != o1.want.PC {
+		if o1.got.Halted || o1.got.Stopped || o1.got.HaltBug || !plainAddr(o1.want.PC) || o1.got.PC != o1.want.PC {
 			continue // HALT/STOP idle; RST lands in ROM (the following NOPs are measured by the sweep below)
 		}
 		// second instruction: placed where the first one left PC; the CPU is NOT re-seeded
@@ -517,7 +525,7 @@ func c03DivCheck(l *explore.Local, e *cpuEnv, c c03Div) *explore.Fail {
 func init() {
 	register("C02", "model_checking", func(c *Ctx) {
 		if c.R != nil {
-			c.R.Rule = "machine cycles = number of ExecuteMachineCycle calls between instruction boundaries of the real CPU, compared with the reference cycle count (taken/not-taken chosen from the flags): every opcode x all 16 flag nibbles, every ordered pair of opcodes (the second one runs right after the first without re-seeding the CPU) x flag nibbles, and every instruction executed by the timing test ROMs (per-instruction monitor); a case = one first opcode with all 500 successors"
+			c.R.Rule = "machine cycles = number of ExecuteMachineCycle calls between instruction boundaries of the real CPU, compared with the reference cycle count (taken/not-taken chosen from the flags): every opcode x all 16 flag nibbles, every ordered pair of opcodes (the second one runs right after the first without re-seeding the CPU) x flag nibbles, every opcode again with an enabled request pending while the master enable is clear (no dispatch, same lengths; HALT then takes its single cycle without halting), and every instruction executed by the timing test ROMs (per-instruction monitor); a case = one first opcode with all 500 successors"
 			c.R.Assumptions = []string{"interrupt dispatch and HALT wake-up lengths are checked in C04/C05", "ROM monitor: single deterministic executions, checked in full"}
 		}
 		flagSets := []uint8{0x00, 0xf0}
@@ -545,6 +553,19 @@ func init() {
 					}
 					for _, fl := range allFlags {
 						if !yield(c02Case{Op1: op, Op2: 0x00, Flags: fl}) || !yield(c02Case{Op1: op, Op2: 0x20, Flags: fl}) {
+							return
+						}
+					}
+				}
+			}, newCPUEnv, c02Check)
+		explore.Product(c.R, "opcode-with-a-masked-request-pending", explore.PartOpt{Bound: "every opcode x all 16 flag nibbles, followed by NOP", Domain: "IME clear, timer interrupt enabled in IE and requested in IF (EI and RETI excluded: they set the master enable)"},
+			func(yield func(c02Case) bool) {
+				for op := 0; op < 512; op++ {
+					if op < 256 && (ref.UndefinedOpcodes[uint8(op)] || op == 0xcb || op == 0xfb || op == 0xd9) {
+						continue
+					}
+					for _, fl := range allFlags {
+						if !yield(c02Case{Op1: op, Op2: 0x00, Flags: fl, Pending: true}) {
 							return
 						}
 					}
